@@ -90,7 +90,11 @@ func (ex *Exec) pushFrame(st *State, fn *ssa.Function, args []Value, env []Value
 	co := st.co()
 	co.frames = append(co.frames, fr)
 	if len(co.frames) > 400 {
-		unsup("call stack deeper than 400 frames")
+		// unbounded recursion ends natively in "fatal error: stack overflow": its own failure kind, so that a spec
+		// can make it a violation (C17/C20) instead of an inconclusive "unsupported"
+		st.fail = &Failure{Kind: "stackdepth", ID: fn.String(), Msg: "call stack deeper than 400 frames (unbounded recursion?) in " + fn.String() + " at " + st.where()}
+		st.done = true
+		panic(pathEnd{})
 	}
 	ex.noteFunc(fn)
 	return fr
